@@ -41,11 +41,8 @@ Definition dspec (t : ptensor R) (idx : list nat) : R :=
   | None => default t
   end.
 
-(** the dense operand a patterned tensor denotes, tabulated once *)
-Definition tab_operand (t : ptensor R) : operand (R:=R) :=
-  let shp := shape R t in
-  let tab := map (dspec t) (all_assts shp) in
-  (shp, fun idx => nth (flat_offset shp idx) tab (default t)).
+(** the dense operand a patterned tensor denotes *)
+Definition spec_operand (t : ptensor R) : operand (R:=R) := (shape R t, dspec t).
 
 Definition sig_ok (shapes inputs : list (list nat)) (output : list nat) : bool :=
   Nat.eqb (length shapes) (length inputs)
@@ -96,7 +93,7 @@ Definition einsum_check
     let ts := map st_of_wire wts in
     if negb (sig_ok (map (fun t => shape R (st_pt t)) ts) inputs output) then 21
     else
-      let ops := map (fun t => tab_operand (st_pt t)) ts in
+      let ops := map (fun t => spec_operand (st_pt t)) ts in
       let oracle := spec_verdict ops inputs output res in
       if negb (Nat.eqb oracle 0) then oracle
       else
@@ -159,7 +156,7 @@ Definition viterbi_check
     let ts := map st_of_wire wts in
     if negb (sig_ok (map (fun t => shape R (st_pt t)) ts) inputs output) then 21
     else
-      let ops := map (fun t => tab_operand (st_pt t)) ts in
+      let ops := map (fun t => spec_operand (st_pt t)) ts in
       let oracle := spec_verdict ops inputs output res in
       if negb (Nat.eqb oracle 0) then oracle
       else
